@@ -78,6 +78,28 @@ def _cond_guarded(x, prod, v):
     return False
 
 
+def _xbool(f, c):
+    """condition c with single-assignment BOOL locals replaced by their initialiser (`const bool pushing = f > 0; if (pushing)` reads as `if (f > 0)`);
+    numeric locals are kept -- they are what the tests are about"""
+    if not isinstance(c, list):
+        return c
+    if len(c) == 2 and c[0] == "var":
+        ds = [d for _, _, d in f.events(lambda q: q["k"] == "decl" and q["var"] == c[1])]
+        asg = [q for _, _, q in f.events(lambda q: q["k"] == "assign" and q["lhs"] == c)]
+        if len(ds) == 1 and not asg and "bool" in str(ds[0].get("ty", "")) and ds[0].get("init") is not None:
+            return _xbool(f, _strip(ds[0]["init"]))
+        return c
+    return [_xbool(f, y) for y in c]
+
+
+def _pos_edges(f, v):
+    """edges on which v > 0 is known; a test stored in a single-assignment bool (`const bool pushing = f > 0; if (pushing)`) counts"""
+    gt = lambda c: isinstance(c, list) and len(c) == 4 and c[1] == ">" and _strip(c[2]) == ["var", v] and _lit(c[3], ("0", "0.0", "0."))
+    le = lambda c: isinstance(c, list) and len(c) == 4 and c[1] == "<=" and _strip(c[2]) == ["var", v] and _lit(c[3], ("0", "0.0", "0."))
+    x = lambda c: _strip(_xbool(f, c)) if isinstance(c, list) and c[:1] == ["var"] else c
+    return known_edges(f, lambda c: gt(c) or gt(x(c)), lambda c: le(c) or le(x(c)))
+
+
 def nonattract(chk, P):
     chk.rule("NONATTRACT", "a quantity that is tested against zero as `N <= 0` (no force / no penetration) is multiplied into a force only where `N > 0` is known")
     n = 0
@@ -88,14 +110,13 @@ def nonattract(chk, P):
         cands = set()
         for b, blk in f.blocks.items():
             t = blk.get("term")
-            c = _strip(t.get("cond")) if t and t.get("cond") is not None else None
+            c = _xbool(f, _strip(t.get("cond"))) if t and t.get("cond") is not None else None     # (a test held in a named bool is still the test)
             for y in sx_find(c, lambda y: y[0] == "op" and len(y) == 4 and y[1] in ("<=", ">") and _strip(y[2])[:1] == ["var"] and _lit(y[3], ("0", "0.0", "0."))):
                 v = _strip(y[2])[1]
                 if re.search(r"Real|double", tys.get(v, "")) and re.search(r"^f|force|depth|^x$|normal", v, re.I):
                     cands.add(v)
         for v in sorted(cands):
-            pos = known_edges(f, lambda c, v=v: isinstance(c, list) and len(c) == 4 and c[1] == ">" and _strip(c[2]) == ["var", v] and _lit(c[3], ("0", "0.0", "0.")),
-                              lambda c, v=v: isinstance(c, list) and len(c) == 4 and c[1] == "<=" and _strip(c[2]) == ["var", v] and _lit(c[3], ("0", "0.0", "0.")))
+            pos = _pos_edges(f, v)
             if not pos:
                 continue
             # products of v that build a force vector: v * <something of vector type>, or a declared Vec3 / SpatialVec initialised from a product with v
@@ -138,13 +159,77 @@ def nonattract(chk, P):
                 if len(sc) != 1:
                     continue
                 v = sc[0]
-                pos = known_edges(f, lambda c, v=v: isinstance(c, list) and len(c) == 4 and c[1] == ">" and _strip(c[2]) == ["var", v] and _lit(c[3], ("0", "0.0", "0.")),
-                                  lambda c, v=v: isinstance(c, list) and len(c) == 4 and c[1] == "<=" and _strip(c[2]) == ["var", v] and _lit(c[3], ("0", "0.0", "0.")))
+                pos = _pos_edges(f, v)
                 ok = _cond_guarded(x, pr, v) or (bool(pos) and only_via(f, b, pos))
                 n += 1
                 chk.judge(ok, "NONATTRACT", "%s:applied-%s=%s*direction:magnitude-tested-positive" % (f.name.replace("SimTK::", ""), d["var"], v), "%s:%d" % (f.file, d["line"]),
                           "the applied force %s is %s times a direction, and %s > 0 is not known where it is formed" % (d["var"], v, v))
+    # what is ADDED to an applied force vector (the friction part) is proportional to a scalar whose definition mentions the tested normal
+    # force: friction limited by mu * (the force that was just clamped), not by some other magnitude
+    for f in sorted(P.all_fns(), key=lambda g: g.id):
+        if str(f.file).endswith(SMOOTH):
+            continue
+        applied = set()
+        for _, _, e in f.calls():
+            if str(e.get("fn", "")).split("::")[-1] in APPLY:
+                for a in call_args(e):
+                    a_ = _strip(a)
+                    if isinstance(a_, list) and a_[0] in ("un", "opc") and len(a_) == 3 and a_[1] == "-":
+                        a_ = _strip(a_[2])
+                    if isinstance(a_, list) and a_[:1] == ["var"]:
+                        applied.add(a_[1])
+        tys = {dd["var"]: str(dd.get("ty", "")) for _, _, dd in f.events(lambda q: q["k"] == "decl")}
+        tested = set()
+        for b, blk in f.blocks.items():
+            t = blk.get("term")
+            c = _xbool(f, t.get("cond")) if t and t.get("cond") is not None else None
+            for y in sx_find(c, lambda y: y[0] == "op" and len(y) == 4 and y[1] in ("<=", ">") and _strip(y[2])[:1] == ["var"] and _lit(y[3], ("0", "0.0", "0."))):
+                tested.add(_strip(y[2])[1])
+        for b, i, e in f.events(lambda q: q["k"] in ("call", "assign")):
+            w = ev_write(e)
+            if not (w and w[1] == "+=" and var_of(w[0]) in applied and w[0][:1] == ["var"]):
+                continue
+            scal = [y[1] for y in sx_find(w[2], lambda y: y[0] == "var" and re.search(r"Real|double", tys.get(y[1], "")) is not None)]
+            for sv in scal[:1]:
+                ds = [d for _, _, d in f.events(lambda q: q["k"] == "decl" and q["var"] == sv and q.get("init") is not None)]
+                if len(ds) != 1:
+                    continue
+                base = [y[1] for y in sx_find(ds[0]["init"], lambda y: y[0] == "var" and y[1] in tested and re.search(r"Real|double", tys.get(y[1], "")) is not None and
+                                              not re.search(r"slip|vrel|vtang", y[1], re.I))]
+                n += 1
+                chk.judge(bool(base), "NONATTRACT", "%s:%s-added-to-%s:built-on-the-tested-normal-force" % (f.name.replace("SimTK::", ""), sv, var_of(w[0])), "%s:%d" % (f.file, ds[0]["line"]),
+                          "%s (added to the applied force) = %s mentions none of the magnitudes tested against zero (%s)" % (sv, sx_str(ds[0]["init"])[:60], sorted(tested)))
     chk.floor("NONATTRACT", 3)
+
+
+def suffix(chk, P):
+    chk.rule("SUFFIX", "side agreement in two-sided contact code (naming lint, like FRAME): a declaration `<name>K = <object>J.method(args)` whose names carry a side index "
+             "(…1 / …2) is computed from the object and the arguments of its own side: J = K and every side-indexed argument variable carries only K")
+    n = 0
+    dig = lambda nm: set(re.findall(r"[A-Za-z_]([12])(?![0-9])", "_" + nm))
+    for f in sorted(P.all_fns(), key=lambda g: g.id):
+        for b, i, d in f.events(lambda q: q["k"] == "decl" and isinstance(q.get("init"), list)):
+            name = d["var"]
+            m = re.search(r"([12])$", name)
+            if not m or len(dig(name)) != 1:
+                continue
+            k = m.group(1)
+            x = _strip(d["init"])
+            if not (isinstance(x, list) and x[:1] == ["call"] and isinstance(x[2], list) and _strip(x[2])[:1] == ["var"]):
+                continue
+            obj = _strip(x[2])[1]
+            od = dig(obj)
+            if len(od) != 1 or not re.search(r"[12]$", obj):
+                continue
+            args = [y[1] for a in (x[3] if len(x) > 3 and isinstance(x[3], list) else []) for y in sx_find(a, lambda y: y[0] == "var") if dig(y[1])]
+            n += 1
+            bad = []
+            if od != {k}:
+                bad.append("object %s" % obj)
+            bad += ["argument %s" % a for a in args if dig(a) != {k}]
+            chk.judge(not bad, "SUFFIX", "%s:%s" % (f.name.replace("SimTK::", ""), name), "%s:%d" % (f.file, d["line"]),
+                      "%s (side %s) is computed from %s" % (name, k, ", ".join(bad)) if bad else "%s from %s%s" % (name, obj, (" and " + ", ".join(args)) if args else ""))
+    chk.floor("SUFFIX", 8)
 
 
 def run(chk, tier, overlays=()):
@@ -154,6 +239,7 @@ def run(chk, tier, overlays=()):
     chk.nfunctions += len(P.fns)
     percontact(chk, P)
     nonattract(chk, P)
+    suffix(chk, P)
 
 
 _HC = "Simbody/src/HuntCrossleyForce.cpp"
@@ -164,6 +250,11 @@ MUTATIONS = [
          old="        if (f <= 0) \n            continue; // no force from this contact; go on to the next one", new="        if (f <= 0) \n            return;", expect="PERCONTACT:HuntCrossleyForceImpl::calcForce"),
     dict(name="HuntCrossleyForce applies an attractive force", arm=True, file=_HC,
          old="        if (f <= 0) \n            continue; // no force from this contact; go on to the next one\n", new="", expect="NONATTRACT:HuntCrossleyForceImpl::calcForce"),
+    dict(name="seeded (sub-agent): Hunt-Crossley friction scaled by the Hertz force instead of the clamped normal force", file=_HC,
+         old="            const Real ffriction = f*(std::min(vrel, Real(1))", new="            const Real ffriction = fH*(std::min(vrel, Real(1))", expect="NONATTRACT:HuntCrossleyForceImpl::calcForce:ffriction"),
+    dict(name="seeded (sub-agent, reduced): surface 1's velocity taken with surface 2's mount", file=_CC,
+         old="        const SpatialVec V_GS1 = mobod1.findFrameVelocityInGround\n            (state, m_tracker.getContactSurfaceTransform(surf1));",
+         new="        const SpatialVec V_GS1 = mobod1.findFrameVelocityInGround\n            (state, m_tracker.getContactSurfaceTransform(surf2));", expect="SUFFIX:CompliantContactSubsystemImpl::ensureForceCacheValid:V_GS1"),
     dict(name="brick contact: sticking vertices still pull", file=_CC,
          old="        if (fNormal <= 0) {\n            powerLoss = -fK*xdot; // xdot<0 here\n        } else {", new="        if (fNormal <= 0) {\n            powerLoss = -fK*xdot; // xdot<0 here\n        } {", expect="NONATTRACT"),
     dict(name="elastic foundation stops at the first face without penetration", file=_EF,
